@@ -506,16 +506,13 @@ class WinList:
         return wl
 
     def append(self, x):
-        if isinstance(self.first_, Win) and isinstance(x, Win):
-            e = self.n == 0
-            self.first_ = Win(x.w, Ite(e, x.a, self.first_.a), Ite(e, x.b, self.first_.b))
-        elif isinstance(self.n, int) and self.n == 0:
-            self.first_ = x
-        elif not isinstance(x, Win) and isinstance(x, bytes) and isinstance(self.first_, Win):
-            e = self.n == 0
-            self.first_ = Win(self.first_.w, Ite(e, self.first_.a, self.first_.a), Ite(e, self.first_.a, self.first_.b))
-        else:
+        w = _CURW[0]
+        xw = x if isinstance(x, Win) else Win(w, 0, 0)
+        if not isinstance(x, Win) and not (isinstance(x, (bytes, bytearray)) and len(x) == 0):
             raise Unreached('WinList.append of %r' % (x,))
+        f = self.first_ if isinstance(self.first_, Win) else Win(w, 0, 0)
+        e = self.n == 0
+        self.first_ = Win(w, Ite(e, xw.a, f.a), Ite(e, xw.b, f.b))
         self.joined = cat(self.joined, x)
         self.n = self.n + 1
 
